@@ -137,11 +137,13 @@ package common
 //@ func (pc *PubkeyCache) Pubkey(index) (pub, ok)
 //@   property C16 C17
 //@   opt noalloc
+//@   opt section=rwLock
 //@   requires pc != nil && held(pc.rwLock) == 0
 //@   requires forall r PcPtr :: {pctrig(r)} pctrig(r) && alloc(r) ==> pc_local(r.pub2idx, r.idx2pub, r.trustedParentCount) && pc_chain(r.parent, r, r.trustedParentCount, r.parent.trustedParentCount, len(r.parent.idx2pub)) && (r <= pc ==> held(r.rwLock) == 0)
 //@   requires alloc(pc) && pctrig(pc) && pctrig(pc.parent)
 //@   decreases pc, 1
 //@   ensures lock: held(pc.rwLock) == 0
+//@   ensures atomic@C17: sections(pc.rwLock) <= old(sections(pc.rwLock)) + 1
 //@   ensures inview: ok ==> index < pc.trustedParentCount + len(pc.idx2pub)
 //@   ensures nonnil: ok <==> pub != nil
 //@   ensures local: index >= pc.trustedParentCount ==> (ok <==> index < pc.trustedParentCount + len(pc.idx2pub))
@@ -162,11 +164,13 @@ package common
 //@ func (pc *PubkeyCache) ValidatorIndex(pubkey) (index, ok)
 //@   property C16 C17
 //@   opt noalloc
+//@   opt section=rwLock
 //@   requires pc != nil && held(pc.rwLock) == 0
 //@   requires forall r PcPtr :: {pctrig(r)} pctrig(r) && alloc(r) ==> pc_local(r.pub2idx, r.idx2pub, r.trustedParentCount) && pc_chain(r.parent, r, r.trustedParentCount, r.parent.trustedParentCount, len(r.parent.idx2pub)) && (r <= pc ==> held(r.rwLock) == 0)
 //@   requires alloc(pc) && pctrig(pc) && pctrig(pc.parent)
 //@   decreases pc, 1
 //@   ensures lock: held(pc.rwLock) == 0
+//@   ensures atomic@C17: sections(pc.rwLock) <= old(sections(pc.rwLock)) + 1
 //@   ensures inview: ok ==> index < pc.trustedParentCount + len(pc.idx2pub)
 //@   ensures local: has(pc.pub2idx, pubkey) ==> ok && index == pc.pub2idx[pubkey]
 //@   ensures inherited: ok && !has(pc.pub2idx, pubkey) ==> index < pc.trustedParentCount
@@ -185,6 +189,7 @@ package common
 //@   requires registry_limit: index < 1099511627776
 //@   assigns pc.idx2pub, pc.pub2idx
 //@   ensures lock: held(pc.rwLock) == 0
+//@   ensures atomic@C17: sections(pc.rwLock) <= old(sections(pc.rwLock)) + 1
 //@   ensures inv_chain: forall r PcPtr :: {pctrig(r)} pctrig(r) && alloc(r) ==> pc_chain(r.parent, r, r.trustedParentCount, r.parent.trustedParentCount, len(r.parent.idx2pub))
 //@   ensures inv_others: forall r PcPtr :: {pctrig(r)} pctrig(r) && alloc(r) && r != pc ==> pc_local(r.pub2idx, r.idx2pub, r.trustedParentCount)
 //@   ensures inv_self_wf: !isnil(pc.pub2idx) && pc.trustedParentCount + len(pc.idx2pub) <= 1099511627776
@@ -221,9 +226,14 @@ package common
 //@   ensures r == signing_root(msgRoot, dom)
 
 // Deserialization of cached keys and signatures: assumed (calls into the BLS library).
-// CachedPubkey.Pubkey writes its lazy cache field; see DESIGN.md (C17) about that write.
+// CachedPubkey.Pubkey writes its lazy cache field.  Cached keys are handed out by the shared pubkey cache (interior
+// pointers into idx2pub) and by the epoch context's sync-committee tables, and nothing guards the field: the
+// declaration below makes every plain write to it a lock:write obligation (C17); the functional contract of
+// Pubkey stays assumed (BLS library), its body is checked for that discipline only.
+//@ guarded CachedPubkey none: decompressed
 //@ func (c *CachedPubkey) Pubkey() (pub, err)
 //@   trusted
+//@   opt lockcheck=C17
 //@   requires c != nil
 //@   assigns c.decompressed
 //@   ensures (err == nil) == pub_valid(c.Compressed)
